@@ -66,7 +66,8 @@ __attribute__((constructor)) static void shim_ctor(void) { S = mmap(NULL, sizeof
 static int find(void **a, int n, void *p) { for (int i = 0; i < n; i++) if (a[i] == p) return i; return -1; }
 void *__wrap_malloc(size_t n) {
     void *p = __real_malloc(n);
-    if (g_track && p) {
+    if (p) memset(p, 0xA5, n);      /* a field the library forgets to initialise reads as non-zero garbage, deterministically */
+    if (S && g_track && p) {
         int i = find(g_freed, g_nfreed, p); if (i >= 0) g_freed[i] = g_freed[--g_nfreed];
         if (g_nlive < LMAX) g_live[g_nlive++] = p;
         g_allocs++;
